@@ -184,72 +184,91 @@ def seedFound {α} (keyEq : α → α → Bool) : ToArgs α → List Nat → R (
     let (t', _, _) ← t.foundIndex keyEq i
     seedFound keyEq t' is
 
+/-- the header part of `to_code_data`: flags consumed one by one into `type`, future-annotations, CO_NESTED; the
+    parameters cut out of `co_varnames`.  Returns `(type, annotations, nested, args)`. -/
+def decodeHeader (v : Ver) (F : FlagTable) (argc pos kw fl : Nat) (varnames freevars cellvars : List PStr) (constants : List Const) :
+    R (Option Function × Bool × Bool × Args) := do
+  let posonly := if v.hasPosOnly then pos else 0
+  let flags ← toFlags F fl
+  let args ← argsFromInput ⟨argc, posonly, kw, varnames, flags.contains bVARARGS, flags.contains bVARKEYWORDS⟩
+  let flags := flags.filter (fun b => b != bVARARGS && b != bVARKEYWORDS)
+  if flags.contains bNOFREE != (freevars.isEmpty && cellvars.isEmpty) then throw .raised
+  let flags := flags.filter (· != bNOFREE)
+  let ann := flags.contains F.annotations
+  let flags := flags.filter (· != F.annotations)
+  let nested := flags.contains bNESTED
+  let flags := flags.filter (· != bNESTED)
+  let nfn := (if flags.contains bNEWLOCALS then 1 else 0) + (if flags.contains bOPTIMIZED then 1 else 0)
+  let (tp, flags) ←
+    if nfn == 0 then
+      if args.len != 0 then throw .raised else pure ((none : Option Function), flags)
+    else if nfn == 2 then
+      let doc := match constants with
+        | .inner (.str s) :: _ => some s
+        | _ => none
+      let tps := [bASYNC_GENERATOR, bCOROUTINE, bGENERATOR].filter flags.contains
+      if tps.length > 1 then throw .raised
+      let ft : Option FnType := match tps with
+        | [b] => if b == bGENERATOR then some .generator else if b == bCOROUTINE then some .coroutine else some .asyncGenerator
+        | _ => none
+      let flags := flags.filter (fun b => !tps.contains b && b != bNEWLOCALS && b != bOPTIMIZED)
+      pure (some ⟨args, doc, ft⟩, flags)
+    else throw .raised
+  if !flags.isEmpty then throw .raised
+  pure (tp, ann, nested, args)
+
+/-- `bytes_to_blocks` up to the blocks: parameters and docstring count as found first, then `_parse_bytes`, `to_arg`
+    instruction by instruction (popping the line mapping), then the grouping into blocks -/
+def decodeBody (v : Ver) (T : OpTable) (names varnames freevars cellvars : List PStr) (constants : List Const) (lm : LMap)
+    (tp : Option Function) (nparams : Nat) (code : List Nat) : R (DecSt × List (List Instr)) := do
+  let vn ← seedFound strEq ⟨varnames, [], []⟩ (List.range nparams)
+  let st : DecSt := {
+    names := ⟨names, [], []⟩,
+    varnames := vn,
+    cellvars := ⟨cellvars, [], []⟩,
+    consts := ⟨constants, [], []⟩,
+    lm := lm }
+  let st ← match tp with
+    | some f => if f.doc.isSome then (do let (t, _, _) ← st.consts.foundIndex Const.keyEq 0; pure { st with consts := t }) else pure st
+    | none => pure st
+  let raw ← parseBytes code
+  let (st, ois) ← decodeInstrs v T freevars st raw
+  let blocks ← buildBlocks ois
+  pure (st, blocks)
+
+/-- the rest of `bytes_to_blocks` / `to_code_data`: the entries no instruction used, and what is left of the line mapping -/
+def decodeTail (st : DecSt) (n : Nat) : R (Option AdditionalLine × List Arg) := do
+  let an ← st.names.additional strEq
+  let av ← st.varnames.additional strEq
+  let ac ← st.cellvars.additional strEq
+  let ak ← st.consts.additional Const.keyEq
+  let addArgs := an.map (fun (s, o) => Arg.name s o) ++ av.map (fun (s, o) => Arg.varname s o)
+    ++ ac.map (fun (s, o) => Arg.cell s o) ++ ak.map (fun (c, o) => Arg.const c o)
+  -- pop_additional_line(len(code))
+  if !st.lm.extra.isEmpty && !(st.lm.extra.all fun (o, _) => o == n) then throw .raised
+  let addLine ←
+    if !st.lm.lines.isEmpty then
+      if !(st.lm.lines.all fun (o, _) => o == n) then throw .raised
+      else
+        let line := match st.lm.lines with | (_, l) :: _ => l | [] => none
+        let offs := (LT.lookupExtra st.lm.extra n).getD []
+        pure (some (⟨line, offs⟩ : AdditionalLine))
+    else pure none
+  pure (addLine, addArgs)
+
+/-- the line mapping handed to `bytes_to_blocks`: relative lines made absolute with `co_firstlineno` -/
+def shiftLines (lm : LMap) (fln : Int) : LMap := { lm with lines := lm.lines.map fun (o, l) => (o, l.map (· + fln)) }
+
 def toCodeDataGo (v : Ver) (T : OpTable) (F : FlagTable) (dec : RawCode → R CodeData) : RawCode → R CodeData
   | .mk argc pos kw nl ss fl fln code lt fname name names varnames freevars cellvars consts => do
-    let posonly := if v.hasPosOnly then pos else 0
     if nl != varnames.length then throw .raised
     let lm ← LT.toLineMapping v.is310 lt code.length
-    let lm : LMap := { lm with lines := lm.lines.map fun (o, l) => (o, l.map (· + fln)) }
     let constants ← consts.mapM (fun c => match c with
       | .inner i => pure (Const.inner i)
       | .code k => Const.code <$> dec k)
-    let flags ← toFlags F fl
-    let args ← argsFromInput ⟨argc, posonly, kw, varnames, flags.contains bVARARGS, flags.contains bVARKEYWORDS⟩
-    let flags := flags.filter (fun b => b != bVARARGS && b != bVARKEYWORDS)
-    if flags.contains bNOFREE != (freevars.isEmpty && cellvars.isEmpty) then throw .raised
-    let flags := flags.filter (· != bNOFREE)
-    let ann := flags.contains F.annotations
-    let flags := flags.filter (· != F.annotations)
-    let nested := flags.contains bNESTED
-    let flags := flags.filter (· != bNESTED)
-    let nfn := (if flags.contains bNEWLOCALS then 1 else 0) + (if flags.contains bOPTIMIZED then 1 else 0)
-    let (tp, flags) ←
-      if nfn == 0 then
-        if args.len != 0 then throw .raised else pure ((none : Option Function), flags)
-      else if nfn == 2 then
-        let doc := match constants with
-          | .inner (.str s) :: _ => some s
-          | _ => none
-        let tps := [bASYNC_GENERATOR, bCOROUTINE, bGENERATOR].filter flags.contains
-        if tps.length > 1 then throw .raised
-        let ft : Option FnType := match tps with
-          | [b] => if b == bGENERATOR then some .generator else if b == bCOROUTINE then some .coroutine else some .asyncGenerator
-          | _ => none
-        let flags := flags.filter (fun b => !tps.contains b && b != bNEWLOCALS && b != bOPTIMIZED)
-        pure (some ⟨args, doc, ft⟩, flags)
-      else throw .raised
-    if !flags.isEmpty then throw .raised
-    -- bytes_to_blocks
-    let vn ← seedFound strEq ⟨varnames, [], []⟩ (List.range args.len)
-    let st : DecSt := {
-      names := ⟨names, [], []⟩,
-      varnames := vn,
-      cellvars := ⟨cellvars, [], []⟩,
-      consts := ⟨constants, [], []⟩,
-      lm := lm }
-    let st ← match tp with
-      | some f => if f.doc.isSome then (do let (t, _, _) ← st.consts.foundIndex Const.keyEq 0; pure { st with consts := t }) else pure st
-      | none => pure st
-    let raw ← parseBytes code
-    let (st, ois) ← decodeInstrs v T freevars st raw
-    let blocks ← buildBlocks ois
-    let an ← st.names.additional strEq
-    let av ← st.varnames.additional strEq
-    let ac ← st.cellvars.additional strEq
-    let ak ← st.consts.additional Const.keyEq
-    let addArgs := an.map (fun (s, o) => Arg.name s o) ++ av.map (fun (s, o) => Arg.varname s o)
-      ++ ac.map (fun (s, o) => Arg.cell s o) ++ ak.map (fun (c, o) => Arg.const c o)
-    -- pop_additional_line(len(code))
-    let n := code.length
-    if !st.lm.extra.isEmpty && !(st.lm.extra.all fun (o, _) => o == n) then throw .raised
-    let addLine ←
-      if !st.lm.lines.isEmpty then
-        if !(st.lm.lines.all fun (o, _) => o == n) then throw .raised
-        else
-          let line := match st.lm.lines with | (_, l) :: _ => l | [] => none
-          let offs := (LT.lookupExtra st.lm.extra n).getD []
-          pure (some (⟨line, offs⟩ : AdditionalLine))
-      else pure none
+    let (tp, ann, nested, args) ← decodeHeader v F argc pos kw fl varnames freevars cellvars constants
+    let (st, blocks) ← decodeBody v T names varnames freevars cellvars constants (shiftLines lm fln) tp args.len code
+    let (addLine, addArgs) ← decodeTail st code.length
     pure (.mk blocks fname fln name ss tp freevars ann nested addLine addArgs)
 
 /-- recursion through nested code objects, by fuel = nesting depth bound -/
